@@ -19,11 +19,14 @@
    or in the free list exactly once.  [wf h] is [exists s, inv h s].
    [proved o]: the operations whose refinement is proved (NodeHistory.v): new,
    gnode_after/before, gnode_add/node_add, gnode_insert/node_insert at every
-   position code, unlink, node/list/tree clone, clear, destroy, relink, traversal
-   and the final clean-up (unlink + destroy of every node without parent).
-   NOT in [proved]: node_move (merge), gnode_swap, gnode_switch; for those the model
-   is tied to the specification and to the code by the differential run only (that
-   is why the history theorems are _partial). *)
+   position code, unlink, node_move (merge of a child list or a local list into a
+   list with overlapping names, recursively), node/list/tree clone, clear, destroy,
+   relink, traversal and the final clean-up (unlink + destroy of every node without
+   parent).
+   NOT in [proved]: gnode_swap and gnode_switch (exchange of children / of places;
+   not among the operations the property names); for those the model is tied to the
+   specification and to the code by the differential run only (that is why the
+   history theorems are _partial). *)
 From MptV Require Import C14.NodeModel C14.NodeSpec C14.NodeRep C14.NodeInv C14.NodeRefine
   C14.NodeFree C14.NodeClone C14.NodeHistory C14.NodeCheck C14.NodeEnd.
 From Coq Require Import List ZArith.
@@ -113,8 +116,24 @@ Definition ex_ops : list op :=
    OIns false 0 0%Z 1; OIns true 0 (-1)%Z 2; OIns false 1 1%Z 3; OAdd true 1 0%Z 4;
    OTClone 0; OUnlink 1; OAfter (Some 2) (Some 1); OClear 5; ODestroy 5; OTrav InOrder 3 0; OEnd].
 
+(* a merge with overlapping names at two levels (what mpt_parse_node does):
+   source 0c(1a(2a,3b),4b)  into  5c(6a(7b))  *)
+Definition ex_merge : list op :=
+  [ONew 3 0; ONew 1 0; ONew 1 0; ONew 2 0; ONew 2 0; OIns false 0 0%Z 1; OIns false 1 0%Z 2; OIns false 1 0%Z 3;
+   OIns false 0 0%Z 4; ONew 3 0; ONew 1 0; ONew 2 0; OIns false 5 0%Z 6; OIns false 6 0%Z 7; OMove 0 6; OClear 0; OEnd].
+
 Example C14_ex_proved : Forall proved ex_ops.
 Proof. repeat constructor. Qed.
+
+Example C14_ex_merge_proved : Forall proved ex_merge.
+Proof. repeat constructor. Qed.
+
+Example C14_ex_merge_result :
+  nth 14 (map fst (srun empty_sstate ex_merge)) OutX = OutZ 2%Z /\
+  filter (fun l => match l with [] => false | _ => true end)
+         (lists (snd (nth 14 (srun empty_sstate ex_merge) (OutX, empty_sstate)))) =
+  [[T 0 3 0 [T 1 1 0 [T 3 2 0 []]]]; [T 5 3 0 [T 6 1 0 [T 7 2 0 []; T 2 1 0 []]; T 4 2 0 []]]].
+Proof. vm_compute. split; reflexivity. Qed.
 
 (* ... so the theorem applies to it; its forests are not trivial: *)
 Example C14_ex_final_forest :
